@@ -39,7 +39,11 @@ def grep_case(rng):
         opts['--navigate'] = True
     if rng.random() < 0.3:
         opts['--width'] = rng.choice([40, 80, 120])
-    return {'kind': 'grep-' + fmt, 'model': m, 'lines': text.rstrip('\n').split('\n'), 'opts': opts, 'meta': {'classes': ['grep-' + fmt]}, 'view': 'grep'}
+    # plain and git-coloured grep lines are only recognised when the calling process is a grep command
+    parent = None
+    if fmt != 'json':
+        parent = rng.choice([['git', 'grep', '-n', 'x'], ['git', 'grep', '-n', 'x'], ['rg', '-n', 'x']]) if fmt == 'plain' else ['git', 'grep', '-n', 'x']
+    return {'kind': 'grep-' + fmt, 'parent': parent, 'model': m, 'lines': text.rstrip('\n').split('\n'), 'opts': opts, 'meta': {'classes': ['grep-' + fmt]}, 'view': 'grep'}
 
 
 def blame_case(rng):
@@ -52,7 +56,8 @@ def blame_case(rng):
         opts['--blame-separator-format'] = rng.choice(['│{n:^4}│', '{n:>3} ', 'none', '{n:^4_block}'])
     if rng.random() < 0.3:
         opts['--width'] = rng.choice([60, 100])
-    return {'kind': 'blame', 'model': m, 'lines': text.rstrip('\n').split('\n'), 'opts': opts, 'meta': {'classes': ['blame']}, 'view': 'blame'}
+    parent = ['git', 'blame', rng.choice(['src/f.rs', 'a.py', 'Makefile'])] if rng.random() < 0.5 else None
+    return {'kind': 'blame', 'parent': parent, 'model': m, 'lines': text.rstrip('\n').split('\n'), 'opts': opts, 'meta': {'classes': ['blame']}, 'view': 'blame'}
 
 
 def any_case(rng):
@@ -64,6 +69,11 @@ def any_case(rng):
     if r < 0.88:
         return grep_case(rng)
     return blame_case(rng)
+
+
+def parent_kw(case):
+    """keyword arguments for runner.run_delta: the calling process this input comes from, when that matters"""
+    return {'parent_argv': case['parent']} if case.get('parent') else {}
 
 
 def data_of(case):
